@@ -1,184 +1,201 @@
-import SSV.Proofs.RelayLifeDefs3
+import SSV.Proofs.RelayLifeInv3d
 namespace SSV.RelayLife
 variable (cfg : Cfg)
 
-theorem inv3b_arrive (s s' : State) (c : Nat) (h1 : Inv1 s) (ha : Inv3a s) (hI : Inv3b cfg s) (h : step cfg s (.arrive c) = some s') : Inv3b cfg s' := by
+theorem inv3b_arrive (s s' : State) (c : Nat) (h1 : Inv1 s) (ha : Inv3a s) (hd : Inv3d s) (hI : Inv3b cfg s) (h : step cfg s (.arrive c) = some s') : Inv3b cfg s' := by
   have a5 := h1.tab
   have a6 := h1.inTab
   clear h1
   obtain ⟨k1,u2,u3,g5,gp⟩ := ha
+  obtain ⟨u1⟩ := hd
   obtain ⟨e0,e1,e2,g9⟩ := hI
   simp only [step] at h
   (repeat' split at h) <;> close_case3
 
-theorem inv3b_rLock (s s' : State)  (h1 : Inv1 s) (ha : Inv3a s) (hI : Inv3b cfg s) (h : step cfg s (.rLock ) = some s') : Inv3b cfg s' := by
+theorem inv3b_rLock (s s' : State)  (h1 : Inv1 s) (ha : Inv3a s) (hd : Inv3d s) (hI : Inv3b cfg s) (h : step cfg s (.rLock ) = some s') : Inv3b cfg s' := by
   have a5 := h1.tab
   have a6 := h1.inTab
   clear h1
   obtain ⟨k1,u2,u3,g5,gp⟩ := ha
-  obtain ⟨e0,e1,e2,g9⟩ := hI
-  simp only [step] at h
-  (repeat' split at h) <;> close_case3
-
-set_option maxHeartbeats 1600000 in
-theorem inv3b_rProc (s s' : State) (ok : Bool) (h1 : Inv1 s) (ha : Inv3a s) (hI : Inv3b cfg s) (h : step cfg s (.rProc ok) = some s') : Inv3b cfg s' := by
-  have a5 := h1.tab
-  have a6 := h1.inTab
-  clear h1
-  obtain ⟨k1,u2,u3,g5,gp⟩ := ha
-  obtain ⟨e0,e1,e2,g9⟩ := hI
-  simp only [step] at h
-  (repeat' split at h) <;> close_case3
-
-theorem inv3b_rMore (s s' : State) (c : Nat) (h1 : Inv1 s) (ha : Inv3a s) (hI : Inv3b cfg s) (h : step cfg s (.rMore c) = some s') : Inv3b cfg s' := by
-  have a5 := h1.tab
-  have a6 := h1.inTab
-  clear h1
-  obtain ⟨k1,u2,u3,g5,gp⟩ := ha
-  obtain ⟨e0,e1,e2,g9⟩ := hI
-  simp only [step] at h
-  (repeat' split at h) <;> close_case3
-
-theorem inv3b_rUnlock (s s' : State)  (h1 : Inv1 s) (ha : Inv3a s) (hI : Inv3b cfg s) (h : step cfg s (.rUnlock ) = some s') : Inv3b cfg s' := by
-  have a5 := h1.tab
-  have a6 := h1.inTab
-  clear h1
-  obtain ⟨k1,u2,u3,g5,gp⟩ := ha
-  obtain ⟨e0,e1,e2,g9⟩ := hI
-  simp only [step] at h
-  (repeat' split at h) <;> close_case3
-
-theorem inv3b_rExit (s s' : State)  (h1 : Inv1 s) (ha : Inv3a s) (hI : Inv3b cfg s) (h : step cfg s (.rExit ) = some s') : Inv3b cfg s' := by
-  have a5 := h1.tab
-  have a6 := h1.inTab
-  clear h1
-  obtain ⟨k1,u2,u3,g5,gp⟩ := ha
+  obtain ⟨u1⟩ := hd
   obtain ⟨e0,e1,e2,g9⟩ := hI
   simp only [step] at h
   (repeat' split at h) <;> close_case3
 
 set_option maxHeartbeats 1600000 in
-theorem inv3b_init (s s' : State) (i : Nat) (ok : Bool) (h1 : Inv1 s) (ha : Inv3a s) (hI : Inv3b cfg s) (h : step cfg s (.init i ok) = some s') : Inv3b cfg s' := by
+theorem inv3b_rProc (s s' : State) (ok : Bool) (h1 : Inv1 s) (ha : Inv3a s) (hd : Inv3d s) (hI : Inv3b cfg s) (h : step cfg s (.rProc ok) = some s') : Inv3b cfg s' := by
   have a5 := h1.tab
   have a6 := h1.inTab
   clear h1
   obtain ⟨k1,u2,u3,g5,gp⟩ := ha
+  obtain ⟨u1⟩ := hd
   obtain ⟨e0,e1,e2,g9⟩ := hI
   simp only [step] at h
   (repeat' split at h) <;> close_case3
 
-theorem inv3b_dTimeout (s s' : State) (i : Nat) (h1 : Inv1 s) (ha : Inv3a s) (hI : Inv3b cfg s) (h : step cfg s (.dTimeout i) = some s') : Inv3b cfg s' := by
+theorem inv3b_rMore (s s' : State) (c : Nat) (h1 : Inv1 s) (ha : Inv3a s) (hd : Inv3d s) (hI : Inv3b cfg s) (h : step cfg s (.rMore c) = some s') : Inv3b cfg s' := by
   have a5 := h1.tab
   have a6 := h1.inTab
   clear h1
   obtain ⟨k1,u2,u3,g5,gp⟩ := ha
+  obtain ⟨u1⟩ := hd
   obtain ⟨e0,e1,e2,g9⟩ := hI
   simp only [step] at h
   (repeat' split at h) <;> close_case3
 
-theorem inv3b_dPacket (s s' : State) (i : Nat) (h1 : Inv1 s) (ha : Inv3a s) (hI : Inv3b cfg s) (h : step cfg s (.dPacket i) = some s') : Inv3b cfg s' := by
+theorem inv3b_rUnlock (s s' : State)  (h1 : Inv1 s) (ha : Inv3a s) (hd : Inv3d s) (hI : Inv3b cfg s) (h : step cfg s (.rUnlock ) = some s') : Inv3b cfg s' := by
   have a5 := h1.tab
   have a6 := h1.inTab
   clear h1
   obtain ⟨k1,u2,u3,g5,gp⟩ := ha
+  obtain ⟨u1⟩ := hd
   obtain ⟨e0,e1,e2,g9⟩ := hI
   simp only [step] at h
   (repeat' split at h) <;> close_case3
 
-theorem inv3b_dSend (s s' : State) (i : Nat) (h1 : Inv1 s) (ha : Inv3a s) (hI : Inv3b cfg s) (h : step cfg s (.dSend i) = some s') : Inv3b cfg s' := by
+theorem inv3b_rExit (s s' : State)  (h1 : Inv1 s) (ha : Inv3a s) (hd : Inv3d s) (hI : Inv3b cfg s) (h : step cfg s (.rExit ) = some s') : Inv3b cfg s' := by
   have a5 := h1.tab
   have a6 := h1.inTab
   clear h1
   obtain ⟨k1,u2,u3,g5,gp⟩ := ha
-  obtain ⟨e0,e1,e2,g9⟩ := hI
-  simp only [step] at h
-  (repeat' split at h) <;> close_case3
-
-set_option maxHeartbeats 1600000 in
-theorem inv3b_cleanup (s s' : State) (i : Nat) (h1 : Inv1 s) (ha : Inv3a s) (hI : Inv3b cfg s) (h : step cfg s (.cleanup i) = some s') : Inv3b cfg s' := by
-  have a5 := h1.tab
-  have a6 := h1.inTab
-  clear h1
-  obtain ⟨k1,u2,u3,g5,gp⟩ := ha
-  obtain ⟨e0,e1,e2,g9⟩ := hI
-  simp only [step] at h
-  (repeat' split at h) <;> close_case3
-
-theorem inv3b_uRecv (s s' : State) (i : Nat) (k : Nat) (h1 : Inv1 s) (ha : Inv3a s) (hI : Inv3b cfg s) (h : step cfg s (.uRecv i k) = some s') : Inv3b cfg s' := by
-  have a5 := h1.tab
-  have a6 := h1.inTab
-  clear h1
-  obtain ⟨k1,u2,u3,g5,gp⟩ := ha
+  obtain ⟨u1⟩ := hd
   obtain ⟨e0,e1,e2,g9⟩ := hI
   simp only [step] at h
   (repeat' split at h) <;> close_case3
 
 set_option maxHeartbeats 1600000 in
-theorem inv3b_uStep (s s' : State) (i : Nat) (h1 : Inv1 s) (ha : Inv3a s) (hI : Inv3b cfg s) (h : step cfg s (.uStep i) = some s') : Inv3b cfg s' := by
+theorem inv3b_init (s s' : State) (i : Nat) (ok : Bool) (h1 : Inv1 s) (ha : Inv3a s) (hd : Inv3d s) (hI : Inv3b cfg s) (h : step cfg s (.init i ok) = some s') : Inv3b cfg s' := by
   have a5 := h1.tab
   have a6 := h1.inTab
   clear h1
   obtain ⟨k1,u2,u3,g5,gp⟩ := ha
+  obtain ⟨u1⟩ := hd
   obtain ⟨e0,e1,e2,g9⟩ := hI
   simp only [step] at h
   (repeat' split at h) <;> close_case3
 
-theorem inv3b_timer (s s' : State) (i : Nat) (h1 : Inv1 s) (ha : Inv3a s) (hI : Inv3b cfg s) (h : step cfg s (.timer i) = some s') : Inv3b cfg s' := by
+theorem inv3b_dTimeout (s s' : State) (i : Nat) (h1 : Inv1 s) (ha : Inv3a s) (hd : Inv3d s) (hI : Inv3b cfg s) (h : step cfg s (.dTimeout i) = some s') : Inv3b cfg s' := by
   have a5 := h1.tab
   have a6 := h1.inTab
   clear h1
   obtain ⟨k1,u2,u3,g5,gp⟩ := ha
+  obtain ⟨u1⟩ := hd
   obtain ⟨e0,e1,e2,g9⟩ := hI
   simp only [step] at h
   (repeat' split at h) <;> close_case3
 
-theorem inv3b_stopCall (s s' : State)  (h1 : Inv1 s) (ha : Inv3a s) (hI : Inv3b cfg s) (h : step cfg s (.stopCall ) = some s') : Inv3b cfg s' := by
+theorem inv3b_dPacket (s s' : State) (i : Nat) (h1 : Inv1 s) (ha : Inv3a s) (hd : Inv3d s) (hI : Inv3b cfg s) (h : step cfg s (.dPacket i) = some s') : Inv3b cfg s' := by
   have a5 := h1.tab
   have a6 := h1.inTab
   clear h1
   obtain ⟨k1,u2,u3,g5,gp⟩ := ha
+  obtain ⟨u1⟩ := hd
+  obtain ⟨e0,e1,e2,g9⟩ := hI
+  simp only [step] at h
+  (repeat' split at h) <;> close_case3
+
+theorem inv3b_dSend (s s' : State) (i : Nat) (h1 : Inv1 s) (ha : Inv3a s) (hd : Inv3d s) (hI : Inv3b cfg s) (h : step cfg s (.dSend i) = some s') : Inv3b cfg s' := by
+  have a5 := h1.tab
+  have a6 := h1.inTab
+  clear h1
+  obtain ⟨k1,u2,u3,g5,gp⟩ := ha
+  obtain ⟨u1⟩ := hd
   obtain ⟨e0,e1,e2,g9⟩ := hI
   simp only [step] at h
   (repeat' split at h) <;> close_case3
 
 set_option maxHeartbeats 1600000 in
-theorem inv3b_stop (s s' : State)  (h1 : Inv1 s) (ha : Inv3a s) (hI : Inv3b cfg s) (h : step cfg s (.stop ) = some s') : Inv3b cfg s' := by
+theorem inv3b_cleanup (s s' : State) (i : Nat) (h1 : Inv1 s) (ha : Inv3a s) (hd : Inv3d s) (hI : Inv3b cfg s) (h : step cfg s (.cleanup i) = some s') : Inv3b cfg s' := by
   have a5 := h1.tab
   have a6 := h1.inTab
   clear h1
   obtain ⟨k1,u2,u3,g5,gp⟩ := ha
+  obtain ⟨u1⟩ := hd
+  obtain ⟨e0,e1,e2,g9⟩ := hI
+  simp only [step] at h
+  (repeat' split at h) <;> close_case3
+
+theorem inv3b_uRecv (s s' : State) (i : Nat) (k : Nat) (h1 : Inv1 s) (ha : Inv3a s) (hd : Inv3d s) (hI : Inv3b cfg s) (h : step cfg s (.uRecv i k) = some s') : Inv3b cfg s' := by
+  have a5 := h1.tab
+  have a6 := h1.inTab
+  clear h1
+  obtain ⟨k1,u2,u3,g5,gp⟩ := ha
+  obtain ⟨u1⟩ := hd
   obtain ⟨e0,e1,e2,g9⟩ := hI
   simp only [step] at h
   (repeat' split at h) <;> close_case3
 
 set_option maxHeartbeats 1600000 in
-theorem inv3b_stopVisit (s s' : State) (i : Nat) (h1 : Inv1 s) (ha : Inv3a s) (hI : Inv3b cfg s) (h : step cfg s (.stopVisit i) = some s') : Inv3b cfg s' := by
+theorem inv3b_uStep (s s' : State) (i : Nat) (h1 : Inv1 s) (ha : Inv3a s) (hd : Inv3d s) (hI : Inv3b cfg s) (h : step cfg s (.uStep i) = some s') : Inv3b cfg s' := by
   have a5 := h1.tab
   have a6 := h1.inTab
   clear h1
   obtain ⟨k1,u2,u3,g5,gp⟩ := ha
+  obtain ⟨u1⟩ := hd
   obtain ⟨e0,e1,e2,g9⟩ := hI
   simp only [step] at h
   (repeat' split at h) <;> close_case3
 
-theorem inv3b_step (s s' : State) (e : Ev) (h1 : Inv1 s) (ha : Inv3a s) (hI : Inv3b cfg s) (h : step cfg s e = some s') : Inv3b cfg s' := by
+theorem inv3b_timer (s s' : State) (i : Nat) (h1 : Inv1 s) (ha : Inv3a s) (hd : Inv3d s) (hI : Inv3b cfg s) (h : step cfg s (.timer i) = some s') : Inv3b cfg s' := by
+  have a5 := h1.tab
+  have a6 := h1.inTab
+  clear h1
+  obtain ⟨k1,u2,u3,g5,gp⟩ := ha
+  obtain ⟨u1⟩ := hd
+  obtain ⟨e0,e1,e2,g9⟩ := hI
+  simp only [step] at h
+  (repeat' split at h) <;> close_case3
+
+theorem inv3b_stopCall (s s' : State)  (h1 : Inv1 s) (ha : Inv3a s) (hd : Inv3d s) (hI : Inv3b cfg s) (h : step cfg s (.stopCall ) = some s') : Inv3b cfg s' := by
+  have a5 := h1.tab
+  have a6 := h1.inTab
+  clear h1
+  obtain ⟨k1,u2,u3,g5,gp⟩ := ha
+  obtain ⟨u1⟩ := hd
+  obtain ⟨e0,e1,e2,g9⟩ := hI
+  simp only [step] at h
+  (repeat' split at h) <;> close_case3
+
+set_option maxHeartbeats 1600000 in
+theorem inv3b_stop (s s' : State)  (h1 : Inv1 s) (ha : Inv3a s) (hd : Inv3d s) (hI : Inv3b cfg s) (h : step cfg s (.stop ) = some s') : Inv3b cfg s' := by
+  have a5 := h1.tab
+  have a6 := h1.inTab
+  clear h1
+  obtain ⟨k1,u2,u3,g5,gp⟩ := ha
+  obtain ⟨u1⟩ := hd
+  obtain ⟨e0,e1,e2,g9⟩ := hI
+  simp only [step] at h
+  (repeat' split at h) <;> close_case3
+
+set_option maxHeartbeats 1600000 in
+theorem inv3b_stopVisit (s s' : State) (i : Nat) (h1 : Inv1 s) (ha : Inv3a s) (hd : Inv3d s) (hI : Inv3b cfg s) (h : step cfg s (.stopVisit i) = some s') : Inv3b cfg s' := by
+  have a5 := h1.tab
+  have a6 := h1.inTab
+  clear h1
+  obtain ⟨k1,u2,u3,g5,gp⟩ := ha
+  obtain ⟨u1⟩ := hd
+  obtain ⟨e0,e1,e2,g9⟩ := hI
+  simp only [step] at h
+  (repeat' split at h) <;> close_case3
+
+theorem inv3b_step (s s' : State) (e : Ev) (h1 : Inv1 s) (ha : Inv3a s) (hd : Inv3d s) (hI : Inv3b cfg s) (h : step cfg s e = some s') : Inv3b cfg s' := by
   cases e with
-  | arrive c => exact inv3b_arrive cfg s s' c h1 ha hI h
-  | rLock  => exact inv3b_rLock cfg s s'  h1 ha hI h
-  | rProc ok => exact inv3b_rProc cfg s s' ok h1 ha hI h
-  | rMore c => exact inv3b_rMore cfg s s' c h1 ha hI h
-  | rUnlock  => exact inv3b_rUnlock cfg s s'  h1 ha hI h
-  | rExit  => exact inv3b_rExit cfg s s'  h1 ha hI h
-  | init i ok => exact inv3b_init cfg s s' i ok h1 ha hI h
-  | dTimeout i => exact inv3b_dTimeout cfg s s' i h1 ha hI h
-  | dPacket i => exact inv3b_dPacket cfg s s' i h1 ha hI h
-  | dSend i => exact inv3b_dSend cfg s s' i h1 ha hI h
-  | cleanup i => exact inv3b_cleanup cfg s s' i h1 ha hI h
-  | uRecv i k => exact inv3b_uRecv cfg s s' i k h1 ha hI h
-  | uStep i => exact inv3b_uStep cfg s s' i h1 ha hI h
-  | timer i => exact inv3b_timer cfg s s' i h1 ha hI h
-  | stopCall  => exact inv3b_stopCall cfg s s'  h1 ha hI h
-  | stop  => exact inv3b_stop cfg s s'  h1 ha hI h
-  | stopVisit i => exact inv3b_stopVisit cfg s s' i h1 ha hI h
+  | arrive c => exact inv3b_arrive cfg s s' c h1 ha hd hI h
+  | rLock  => exact inv3b_rLock cfg s s'  h1 ha hd hI h
+  | rProc ok => exact inv3b_rProc cfg s s' ok h1 ha hd hI h
+  | rMore c => exact inv3b_rMore cfg s s' c h1 ha hd hI h
+  | rUnlock  => exact inv3b_rUnlock cfg s s'  h1 ha hd hI h
+  | rExit  => exact inv3b_rExit cfg s s'  h1 ha hd hI h
+  | init i ok => exact inv3b_init cfg s s' i ok h1 ha hd hI h
+  | dTimeout i => exact inv3b_dTimeout cfg s s' i h1 ha hd hI h
+  | dPacket i => exact inv3b_dPacket cfg s s' i h1 ha hd hI h
+  | dSend i => exact inv3b_dSend cfg s s' i h1 ha hd hI h
+  | cleanup i => exact inv3b_cleanup cfg s s' i h1 ha hd hI h
+  | uRecv i k => exact inv3b_uRecv cfg s s' i k h1 ha hd hI h
+  | uStep i => exact inv3b_uStep cfg s s' i h1 ha hd hI h
+  | timer i => exact inv3b_timer cfg s s' i h1 ha hd hI h
+  | stopCall  => exact inv3b_stopCall cfg s s'  h1 ha hd hI h
+  | stop  => exact inv3b_stop cfg s s'  h1 ha hd hI h
+  | stopVisit i => exact inv3b_stopVisit cfg s s' i h1 ha hd hI h
 
 end SSV.RelayLife
